@@ -180,7 +180,14 @@ func GenHTML(t *simkit.Tape, cfg HTMLGenConfig) []byte {
 	case 0:
 		g.b.WriteString([]string{"<!DOCTYPE html>", "<!doctype html>", "<!DOCTYPE html>\n"}[t.Draw(3)])
 	case 1:
-		g.b.WriteString(`<!DOCTYPE HTML PUBLIC "-//W3C//DTD HTML 4.01//EN" "http://www.w3.org/TR/html4/strict.dtd">`)
+		g.b.WriteString([]string{
+			`<!DOCTYPE HTML PUBLIC "-//W3C//DTD HTML 4.01//EN" "http://www.w3.org/TR/html4/strict.dtd">`,
+			`<!DOCTYPE html PUBLIC "-//W3C//DTD XHTML 1.0 Transitional//EN" "http://www.w3.org/TR/xhtml1/DTD/xhtml1-transitional.dtd">`,
+			`<!DOCTYPE HTML PUBLIC "-//W3C//DTD HTML 3.2 Final//EN">`,
+			`<!DOCTYPE html SYSTEM "about:legacy-compat">`,
+			`<!DOCTYPE html PUBLIC "-//W3C//DTD HTML 4.01 Frameset//EN" "http://www.w3.org/TR/html4/frameset.dtd">`,
+			`<!doctype svg>`,
+		}[t.Pick(3, 2, 2, 2, 1, 1)])
 	case 3:
 		g.b.WriteString("<!-- first --><!DOCTYPE html>")
 	}
